@@ -135,7 +135,7 @@ async def _run(recipe, lines, tags):
                 tasks[i] = loop.create_task(eh.async_subscribe(svcs[i], timedelta(seconds=t)))
                 await settle()
                 lines.append(f"ev start {i} {t}")
-                method, url, headers, _ = rq.log[-1]
+                method, url, headers = rq.log[-1][:3]
                 hs = ",".join(f"{k_}={tok_str(v)}" for k_, v in sorted((k2.upper(), str(v2)) for k2, v2 in headers.items()))
                 lines.append(f"out sent {method} {c09env.svc_index(url)} {hs}")
         elif kind == "notify":
